@@ -259,8 +259,17 @@ func extMathPow(fr *frame, a []value) value {
 	_, s2 := a[1].(symFloat)
 	if s1 || s2 {
 		px := fr.i.px
-		// uninterpreted: fresh float constrained to nothing (over-approximation)
-		return symFloat{px.newFloatSym("env", "pow")}
+		// uninterpreted function: equal argument terms give the same result
+		key := "pow(" + termKey(px.floatTerm(a[0])) + "," + termKey(px.floatTerm(a[1])) + ")"
+		if px.ufCache == nil {
+			px.ufCache = map[string]*Term{}
+		}
+		if t, ok := px.ufCache[key]; ok {
+			return symFloat{t}
+		}
+		t := px.newFloatSym("env", "pow")
+		px.ufCache[key] = t
+		return symFloat{t}
 	}
 	return math.Pow(a[0].(float64), a[1].(float64))
 }
